@@ -82,7 +82,7 @@ func TCDFBeta(nu, t float64) float64 {
 func TPDF(nu, x float64) float64 {
 	la, _ := math.Lgamma((nu + 1) / 2)
 	lb, _ := math.Lgamma(nu / 2)
-	return math.Exp(la-lb-0.5*math.Log(nu*math.Pi)-(nu+1)/2*math.Log1p(x*x/nu))
+	return math.Exp(la - lb - 0.5*math.Log(nu*math.Pi) - (nu+1)/2*math.Log1p(x*x/nu))
 }
 
 // TCDFQuad integrates the density from 0 to |t| by panelled Gauss-Legendre
